@@ -66,9 +66,14 @@ def pmfBinomial (binom : Nat → Nat → Rat) (trials : Nat) (p : Rat) (x : Nat)
   else .ok (binom trials x * p ^ x * (1 - p) ^ (trials - x))
 
 /-- `for(i = 0; i <= x; i++) cdf += PMF_Binomial(trials, p, i)` -/
+def cdfBinomialSum (binom : Nat → Nat → Rat) (trials : Nat) (p : Rat) (x : Nat) : Rat :=
+  (List.range (x + 1)).foldl (fun acc i => acc + binom trials i * p ^ i * (1 - p) ^ (trials - i)) 0
+
+/-- after `fix:` 1f73a00: `if(x >= trials) return 1.0;` before the loop and `return std::min(1.0, cdf);` after it -/
 def cdfBinomial (binom : Nat → Nat → Rat) (trials : Nat) (p : Rat) (x : Nat) : Except Err Rat :=
   if p < 0 ∨ p > 1 then .error .diag
-  else .ok ((List.range (x + 1)).foldl (fun acc i => acc + binom trials i * p ^ i * (1 - p) ^ (trials - i)) 0)
+  else if x ≥ trials then .ok 1
+  else .ok (rmin 1 (cdfBinomialSum binom trials p x))
 
 /-- `C(n,k)` as the driver computes it: `Π_{i<k} (n-i)/(i+1)` (0 for `k > n`: the factor `n-n`) -/
 def chooseR (n k : Nat) : Rat :=
